@@ -261,7 +261,8 @@ fn seq_cfg(rng: &mut Rng) -> Cfg {
     };
     Cfg {
         weight,
-        capacity: 16,
+        // only a sizing hint for the maps: must not influence any decision
+        capacity: *rng.pick(&[1usize, 2, 3, 4, 16, 16, 16, 16]),
         counters: if is_open("D8") { *rng.pick(&[2u64, 3, 7, 16, 64, 100]) } else { *rng.pick(&[1u64, 2, 3, 7, 16, 64, 100]) },
         shards: *rng.pick(&[2usize, 2, 4, 8]),
         queue: *rng.pick(&[1usize, 2, 4, 64]),
@@ -356,7 +357,10 @@ fn c14_seq(rng: &mut Rng, name: &'static str) -> Prepared {
     cfg.weight = 400;
     cfg.weight_fn = WeightFn::PerKey(vec![1; cfg.keys as usize]);
     cfg.pool = *rng.pick(&[1usize, 1, 2, 3]);
-    cfg.buffer = *rng.pick(&[1usize, 1, 2, 3]);
+    cfg.buffer = *rng.pick(&[1usize, 1, 2, 3, 8, 40]);
+    if cfg.buffer == 40 {
+        cfg.pool = 1; // so that whole buffers of 40 really get drained within one run
+    }
     cfg.counters = *rng.pick(&[1u64, 2, 3, 5, 7, 16, 17, 33, 64, 100]);
     rebuild_with_cfg(&mut p, cfg);
     p
@@ -1109,6 +1113,36 @@ fn c15_pipe(rng: &mut Rng, name: &'static str) -> Prepared {
     prep(sc)
 }
 
+/// One caller: every key is put (and acknowledged) first, then only reads follow, so a key's
+/// presence never changes under a read and multi_get may name a key several times (each lookup is
+/// a hit of its own and must leave its own access record).
+fn c15_pipe_repeats(rng: &mut Rng, name: &'static str) -> Prepared {
+    let mut p = ConcParams::base();
+    p.keys = (2, 4);
+    p.threads = (1, 1);
+    p.ops = (8, 30);
+    p.mix = [0, 0, 0, 96, 0, 2, 0, 2];
+    p.ttl_pct = 0;
+    p.time_thread = false;
+    p.pressure = Pressure::Fits;
+    p.stall_pct = 0;
+    MULTI_GET_MAY_REPEAT_KEYS.with(|c| c.set(true));
+    let mut sc = conc(rng, "C15", name, &p);
+    MULTI_GET_MAY_REPEAT_KEYS.with(|c| c.set(false));
+    sc.threads.truncate(1); // (one run in ten would get a second caller)
+    sc.cfg.pool = *rng.pick(&[1usize, 1, 2, 3]);
+    sc.cfg.buffer = *rng.pick(&[1usize, 1, 2, 3]);
+    let mut pre: Vec<Op> = (0..sc.cfg.keys).map(|k| Op::Put { key: k, val: token(0, 900 + k as usize, k), weight: None, ttl: None, wait: Wait::Now }).collect();
+    pre.extend(sc.threads[0].drain(..));
+    sc.threads[0] = pre;
+    match rng.below(10) {
+        0..=3 => sc.sched.stalls.push(Stall { role: RoleName::Consumer, from: 0, until: u64::MAX }),
+        4..=6 => sc.sched.stalls.push(gen_stall(rng, RoleName::Consumer)),
+        _ => {}
+    }
+    prep(sc)
+}
+
 fn c16_conc(rng: &mut Rng, name: &'static str) -> Prepared {
     let mut p = ConcParams::base();
     p.owner_per_key = is_open("D2");
@@ -1218,7 +1252,7 @@ pub fn plan(property: &str) -> Vec<Stratum> {
         "C12" => vec![Stratum { name: "conc-passive", share: 5, gen: c12_conc }, Stratum { name: "ack-manual-polls", share: 5, gen: c12_ack }],
         "C13" => vec![Stratum { name: "conc-chaos", share: 6, gen: c13_conc }, Stratum { name: "conc-chaos-upserts", share: 4, gen: c13_conc_upserts }],
         "C14" => vec![Stratum { name: "seq-sketch-mirror", share: 7, gen: c14_seq }, Stratum { name: "seq-sketch-mirror-pressure", share: 3, gen: c14_seq_pressure }],
-        "C15" => vec![Stratum { name: "pipe", share: 10, gen: c15_pipe }],
+        "C15" => vec![Stratum { name: "pipe", share: 8, gen: c15_pipe }, Stratum { name: "pipe-single-reader-repeated-keys", share: 2, gen: c15_pipe_repeats }],
         "C16" => vec![Stratum { name: "seq-model", share: 6, gen: c16_seq }, Stratum { name: "conc-quiescent", share: 4, gen: c16_conc }],
         "C17" => vec![Stratum { name: "seq-edge", share: 7, gen: c17_edge }, Stratum { name: "conc-hostile-ttl", share: 3, gen: c17_conc }],
         "C18" => vec![Stratum { name: "conc-hostile", share: 10, gen: c18_conc }],
